@@ -20,9 +20,10 @@ ASSUMPTIONS = [
     "Newton tolerance 1e-12; total energy = 1/2 u^T M u + System.E_pot (gravity is a constant Force, springs in force form)",
     "order: max|E-E0| with dt divided by that with dt/2 lies in [3.0, 5.5], asserted only if the coarse error exceeds "
     "1e-7*(1+|E0|) (above solver noise); a first-order scheme gives ~2",
-    "no secular growth: max|E-E0| over the last third of the long run <= 2.5x that over the first two thirds + "
-    "1e-9*(1+|E0|) (the first two thirds cover at least two swing periods, so they sample the extremes of the "
-    "state-dependent energy error of a symplectic scheme)",
+    "no secular growth: least-squares line through E(t)-E0 over the 8-10 s run; |slope|*T <= 4 x the standard deviation "
+    "of the residual + 1e-9*(1+|E0|+max T); asserted only when the motion is recurrent on that horizon (the kinetic "
+    "energy has at least two interior maxima in the first two thirds and reaches no new extreme afterwards), because "
+    "the energy error of a symplectic scheme is a bounded function of the state, not of time",
     "reversibility: the forward end state with reversed velocities is written into system.q0/u0 (no re-assembly, the "
     "systems are autonomous) and integrated the same number of steps; the distance to (q0, -u0) must stay below "
     "1e-5*(1+|state|) (Newton noise times the flow's error amplification is < 1e-7 for these horizons)",
@@ -103,13 +104,32 @@ def check(spec):
     else:
         res.label("order_clause_below_noise")
     # ---- no secular growth over a long horizon (>= 8 s, several swing periods) ----------------------
+    # The energy error of a symplectic scheme is dt^2 times a bounded function of the *state* (backward error
+    # analysis), so it oscillates with the motion, whereas a defect shows as a trend in time. Oracle: least-squares
+    # line through E(t)-E0 over the long run; the trend over the horizon must not exceed four standard deviations of
+    # the oscillation about that line. (Comparing maxima of early and late windows, the first version of this clause,
+    # raised false alarms at seeds 1/2: chaotic chains have error spikes of varying height, and a pendulum on its
+    # first slow swing has not visited its states yet; it also missed a seeded drift of 1.9x.) The clause is asserted
+    # only when the motion is recurrent on the horizon: at least two interior maxima of the kinetic energy in the first
+    # two thirds and no new extreme afterwards.
     cut = (2 * len(El)) // 3
-    first = float(np.max(np.abs(El[:cut] - E0)))
-    last = float(np.max(np.abs(El[cut:] - E0)))
-    res.ok()
-    if last > 2.5 * first + 1e-9 * sc:
-        res.fail("no_secular_energy_growth", site, last / (first + 1e-300), feats,
-                 f"first two thirds {first:.3e}, last third {last:.3e}, {n_long} steps")
+    Ta, Tb = Tl[:cut], Tl[cut:]
+    peaks = int(np.sum((Ta[1:-1] > Ta[:-2]) & (Ta[1:-1] >= Ta[2:]) & (Ta[1:-1] > 0.5 * np.max(Ta))))
+    recurrent = peaks >= 2 and np.max(Tb) <= 1.05 * np.max(Ta) and np.min(Tb) >= np.min(Ta) - 0.05 * np.max(Ta)
+    if not recurrent:
+        res.label("drift_clause_not_asserted_motion_not_recurrent")
+    else:
+        tt = np.asarray(soll.t) - soll.t[0]
+        e = El - E0
+        A = np.vstack([np.ones_like(tt), tt]).T
+        coef = np.linalg.lstsq(A, e, rcond=None)[0]
+        trend = abs(float(coef[1] * tt[-1]))
+        osc = float(np.std(e - A @ coef))
+        res.ok()
+        res.label("drift_clause_asserted")
+        if trend > 4.0 * osc + 1e-9 * sc:
+            res.fail("no_secular_energy_growth", site, trend / (osc + 1e-300), feats,
+                     f"energy trend over the run {trend:.3e}, oscillation about it {osc:.3e} (std), {n_long} steps")
     # ---- reversibility --------------------------------------------------------------------------
     qN, uN = np.asarray(soll.q)[n], np.asarray(soll.u)[n]
     try:
